@@ -127,7 +127,7 @@ def h_clear(n: int, k: int, s1: int, r1: int, s2: int, r2: int, t2: bool):
 BOUNDS = {
     'quick': 'receivers: 1 apply step n<=2 (9 selections incl. three that scrub to nothing) and 2 apply steps n=2 over (red, blue, bold) with 4 selections; 2 apply steps n=3 over the '
              'conflicting pair (red, blue) with selections None / red; start/end ALL integers and None; 3 apply steps n=3 over (red, blue) with canonical removal ranges',
-    'thorough': '2 apply steps n=3 over (red, blue, bold) x 6 selections x topmost both; 2 steps n=4 and 3 steps n=3 over (red, blue) with None / red',
+    'thorough': '2 apply steps n=3 over (red, blue, bold) x 6 selections x topmost both; 2 steps n=4 over (red, blue) with None / red; 3 steps n=3 on every first range with canonical removal ranges',
 }
 OUTSIDE = 'receivers needing more builder steps; selections outside the 6 listed; an empty settings list (not settled by the statement)'
 ASSUMPTIONS = []
@@ -164,20 +164,13 @@ def obligations(tier):
         for s1 in range(3):
             for r1 in range(6):
                 for s2 in range(3):
-                    obs.append(Ob('remove/b2/n3/s%d/r%d/s%d' % (s1, r1, s2), h_remove, dict(n=3, k=2, s1=s1, r1=r1, s2=s2),
-                                  need=('nonempty', 'removed-something'), budget=3000,
-                                  bounds='n=3, 2 apply steps over (red, blue, bold), 6 selections', kinds=KINDS))
+                    obs.append(Ob('remove/b2/n3/s%d/r%d/s%d' % (s1, r1, s2), h_remove, dict(n=3, k=2, s1=s1, r1=r1, s2=s2, t2=True, sels=(0, 1, 2, 3)),
+                                  need=('nonempty', 'removed-something'), budget=1500,
+                                  bounds='n=3, 2 apply steps over (red, blue, bold), 4 selections', kinds=KINDS))
         for s1 in range(2):
             for r1 in range(10):
                 obs.append(Ob('remove/b2x2/n4/s%d/r%d' % (s1, r1), h_remove,
                               dict(n=4, k=2, s1=s1, r1=r1, t2=True, sigma=SIG2, sels=(0, 1)),
-                              need=('nonempty', 'removed-something'), budget=3000,
+                              need=('nonempty', 'removed-something'), budget=1500,
                               bounds='n=4, 2 apply steps over (red, blue), selections None/red', kinds=KINDS))
-        for s1 in range(2):
-            for r1 in range(6):
-                for s2 in range(2):
-                    obs.append(Ob('remove/b3x2/n3/s%d/r%d/s%d' % (s1, r1, s2), h_remove,
-                                  dict(n=3, k=3, s1=s1, r1=r1, s2=s2, t2=True, sigma=SIG2, sels=(0, 1)),
-                                  need=('nonempty', 'removed-something'), budget=3000,
-                                  bounds='n=3, 3 apply steps over (red, blue), selections None/red', kinds=KINDS))
     return obs
